@@ -4,6 +4,7 @@ import (
 	"fmt"
 	"math/rand"
 	"sort"
+	"strings"
 
 	"verifharness/hlib"
 )
@@ -115,7 +116,7 @@ func viewOf(r *Real, ref *refState, obs *StepObs, nvals int) *View {
 // step by step (h.Ops is filled in); otherwise h.Ops is replayed.
 func RunHistory(h *History, prof *Profile, rng *rand.Rand, opt Options) *Outcome {
 	out := &Outcome{H: h, Stats: map[string]int{}, Commits: opt.Commits}
-	t, err := NewTable(h.Vals, h.Keys)
+	t, err := NewTable(h.Cfg, h.Vals, h.Keys)
 	if err != nil {
 		out.Err = err
 		return out
@@ -128,7 +129,18 @@ func RunHistory(h *History, prof *Profile, rng *rand.Rand, opt Options) *Outcome
 	}
 	defer r.Close()
 	ref := &refState{expected: map[int][]int{0: nil}, objsAt: map[int][]int{}, scanAt: map[int][]int{}, statAt: map[int]string{}, revertedAt: map[int]int{}}
+	stop := false
+	seenKey := map[string]bool{}
 	fail := func(kind, key, what string, step int) {
+		if Benign(key) {
+			// the state is not damaged: keep exploring, report once per history
+			if seenKey[key] {
+				return
+			}
+			seenKey[key] = true
+		} else {
+			stop = true
+		}
 		out.Fails = append(out.Fails, Fail{kind, key, what, step})
 	}
 	var prev *StepObs
@@ -181,17 +193,22 @@ func RunHistory(h *History, prof *Profile, rng *rand.Rand, opt Options) *Outcome
 		if obs.Res == "panic" {
 			fail("panic", opt.Prop+":panic:"+op.Kind, obs.ErrText, step)
 		}
-		nf := len(out.Fails)
 		checkStep(r, t, ref, op, obs, prev, tipsBefore, ncBefore, opt, step, fail)
 		if opt.Determinism > 0 {
 			checkDeterminism(r, t, obs, opt, step, fail)
 		}
 		prev = obs
-		if len(out.Fails) > nf && opt.StopOnFail {
+		if stop && opt.StopOnFail {
 			break
 		}
 	}
 	return out
+}
+
+// Benign failure classes leave the lake usable; a history continues after them.
+func Benign(key string) bool {
+	return strings.HasPrefix(key, "C14:this-key:") || strings.HasPrefix(key, "C14:scan:tie-order:") ||
+		key == "C15:branch:empty-branch-reads-main"
 }
 
 func trimOther(s string) string {
@@ -301,6 +318,17 @@ func checkStep(r *Real, t *Table, ref *refState, op Op, obs, prev *StepObs, tips
 		}
 	}
 
+	// ---- a delete-where that finds nothing to delete must have nothing to delete --------
+	if op.Kind == "delwhere" && obs.Res == "empty" {
+		if should := intersectMs(ref.expected[b], obs.Dels); len(should) > 0 {
+			key := P + ":contents:delwhere-empty"
+			if allTypedNull(t, should) {
+				key = "C14:delete-where:typed-null-key"
+			}
+			fail("oracle", key, fmt.Sprintf("%s reported an empty transaction although the predicate is true of %v on b%d", op, should, b), step)
+		}
+	}
+
 	// ---- failed operations leave everything untouched ---------------------------------
 	if !ok && prev != nil && op.Kind != "vacuum" {
 		for i := range obs.Branches {
@@ -340,8 +368,19 @@ func checkStep(r *Real, t *Table, ref *refState, op Op, obs, prev *StepObs, tips
 			continue
 		}
 		want, tracked := ref.expected[nb.Name]
+		if tracked && nb.Tip == 0 && nb.Name != 0 && len(want) == 0 && len(nb.Scan) > 0 {
+			// a branch without any commit is resolved to main by the analyzer
+			if mb := findBranch(obs, 0); mb != nil && EqInts(ms(mb.Scan), ms(nb.Scan)) {
+				fail("oracle", "C15:branch:empty-branch-reads-main", fmt.Sprintf("after %s branch b%d, which has no commit, shows main's contents %v", op, nb.Name, ms(nb.Scan)), step)
+				continue
+			}
+		}
 		if tracked && !EqInts(ms(nb.Scan), want) {
-			fail("oracle", fmt.Sprintf("%s:contents:%s", P, op.Kind), fmt.Sprintf("after %s branch b%d holds %v, expected (loaded - deleted) %v; missing %v extra %v", op, nb.Name, ms(nb.Scan), want, MsSub(want, nb.Scan), MsSub(nb.Scan, want)), step)
+			key := fmt.Sprintf("%s:contents:%s", P, op.Kind)
+			if extra := MsSub(nb.Scan, want); op.Kind == "delwhere" && len(MsSub(want, nb.Scan)) == 0 && allTypedNull(t, extra) {
+				key = "C14:delete-where:typed-null-key"
+			}
+			fail("oracle", key, fmt.Sprintf("after %s branch b%d holds %v, expected (loaded - deleted) %v; missing %v extra %v", op, nb.Name, ms(nb.Scan), want, MsSub(want, nb.Scan), MsSub(nb.Scan, want)), step)
 		}
 		if nb.Name == b && expObjsSet && !EqInts(live, expObjs) {
 			fail("oracle", fmt.Sprintf("%s:objects:%s", P, op.Kind), fmt.Sprintf("after %s branch b%d has objects %v, expected %v", op, nb.Name, live, expObjs), step)
@@ -353,7 +392,11 @@ func checkStep(r *Real, t *Table, ref *refState, op Op, obs, prev *StepObs, tips
 				c = -c
 			}
 			if c > 0 {
-				fail("oracle", fmt.Sprintf("%s:scan-order", P), fmt.Sprintf("after %s scan of b%d is out of pool-key order at %d: %s then %s", op, nb.Name, j, t.Vals[nb.Scan[j-1]].Text, t.Vals[nb.Scan[j]].Text), step)
+				key := fmt.Sprintf("%s:scan-order", P)
+				if r.Cfg.Key == "this" {
+					key = "C14:this-key:scan-order"
+				}
+				fail("oracle", key, fmt.Sprintf("after %s scan of b%d is out of pool-key order at %d: %s then %s", op, nb.Name, j, t.Vals[nb.Scan[j-1]].Text, t.Vals[nb.Scan[j]].Text), step)
 				break
 			}
 		}
@@ -368,7 +411,11 @@ func checkStep(r *Real, t *Table, ref *refState, op Op, obs, prev *StepObs, tips
 				fail("oracle", fmt.Sprintf("%s:object-modified", P), fmt.Sprintf("data object %d changed on disk: was %v, now %v", o.ID, first, o.Toks), step)
 			}
 			if what := metaCheck(t, r.Cfg, &o); what != "" {
-				fail("oracle", fmt.Sprintf("%s:object-meta:%s", P, op.Kind), fmt.Sprintf("after %s object %d of b%d: %s", op, o.ID, nb.Name, what), step)
+				key := fmt.Sprintf("%s:object-meta:%s", P, op.Kind)
+				if r.Cfg.Key == "this" && o.Min == "n" && o.Max == "n" && o.Count == len(o.Toks) {
+					key = "C14:this-key:object-meta"
+				}
+				fail("oracle", key, fmt.Sprintf("after %s object %d of b%d: %s", op, o.ID, nb.Name, what), step)
 			}
 		}
 		if !EqInts(ms(all), ms(nb.Scan)) {
@@ -379,8 +426,9 @@ func checkStep(r *Real, t *Table, ref *refState, op Op, obs, prev *StepObs, tips
 	// ---- vacuum removes only objects absent from the commit's snapshot ----------------
 	if op.Kind == "vacuum" && ok {
 		if at, known := ref.objsAt[op.Commit]; known {
+			gone := setOf(r.LastVacuumed)
 			for _, id := range at {
-				if r.Vacuumed[id] {
+				if gone[id] {
 					fail("oracle", P+":vacuum:live-object", fmt.Sprintf("vacuum(c%d) removed object %d which is in that commit's snapshot", op.Commit, id), step)
 				}
 			}
@@ -426,6 +474,20 @@ func checkStep(r *Real, t *Table, ref *refState, op Op, obs, prev *StepObs, tips
 			}
 		}
 	}
+}
+
+// allTypedNull: every token's pool key is a typed null (`null(int64)`), for which the filter
+// comparison and the range pruner's compare() disagree.
+func allTypedNull(t *Table, toks []int) bool {
+	if len(toks) == 0 {
+		return false
+	}
+	for _, k := range toks {
+		if !strings.Contains(t.Vals[k].Text, "null(") {
+			return false
+		}
+	}
+	return true
 }
 
 func intersectMs(have, set []int) []int {
@@ -492,7 +554,7 @@ func checkDeterminism(r *Real, t *Table, obs *StepObs, opt Options, step int, fa
 			seqs = append(seqs, s)
 		}
 		if opt.Reopen {
-			l2, err := r.L.Reopen()
+			l2, err := r.Reopen()
 			if err == nil {
 				old := r.L
 				r.L = l2
@@ -510,46 +572,27 @@ func checkDeterminism(r *Real, t *Table, obs *StepObs, opt Options, step int, fa
 				continue
 			}
 			key := opt.Prop + ":scan:nondeterministic"
-			if EqInts(t.CanonTies(s), t.CanonTies(seqs[0])) && tieFromEqualRangeObjects(t, nb, s, seqs[0]) {
-				key = "C14:scan:tie-order:equal-range-objects"
+			if EqInts(t.CanonTies(s), t.CanonTies(seqs[0])) {
+				// only the order among values of equal pool key differs
+				key = "C14:scan:tie-order:equal-keys"
 			}
-			fail("oracle", key, fmt.Sprintf("the same unfiltered scan of b%d returned %s and then %s", nb.Name, t.Texts(seqs[0]), t.Texts(s)), step)
+			fail("oracle", key, fmt.Sprintf("the same unfiltered scan of b%d returned [%s] and then [%s]", nb.Name, strings.ReplaceAll(strings.TrimSpace(t.Texts(seqs[0])), "\n", " "), strings.ReplaceAll(strings.TrimSpace(t.Texts(s)), "\n", " ")), step)
 			return
 		}
 	}
 }
 
-// tieFromEqualRangeObjects: every position where the two sequences differ holds values of
-// equal key and equal bytes that live in different objects with identical [min,max].
-func tieFromEqualRangeObjects(t *Table, b *BranchObs, x, y []int) bool {
-	home := map[int][]*ObjObs{}
+// equalRangeObjects: the branch has two objects with identical [min,max]; their relative
+// order in the lister is the Go map iteration order of the snapshot.
+func equalRangeObjects(b *BranchObs) bool {
 	for i := range b.Objs {
-		o := &b.Objs[i]
-		for _, k := range o.Toks {
-			home[k] = append(home[k], o)
-		}
-	}
-	for i := range x {
-		if x[i] == y[i] {
-			continue
-		}
-		vx, vy := t.Vals[x[i]], t.Vals[y[i]]
-		if vx.Key != vy.Key || string(vx.Bytes) != string(vy.Bytes) {
-			return false
-		}
-		okPair := false
-		for _, ox := range home[x[i]] {
-			for _, oy := range home[y[i]] {
-				if ox.ID != oy.ID && ox.Min == oy.Min && ox.Max == oy.Max {
-					okPair = true
-				}
+		for j := i + 1; j < len(b.Objs); j++ {
+			if b.Objs[i].Min == b.Objs[j].Min && b.Objs[i].Max == b.Objs[j].Max {
+				return true
 			}
 		}
-		if !okPair {
-			return false
-		}
 	}
-	return true
+	return false
 }
 
 // ---- glue to hlib.Ctx ------------------------------------------------------------------
@@ -600,7 +643,7 @@ func CompareModel(c *hlib.Ctx, o *Outcome, opt Options, ans string) {
 	// a history that stopped at a real-code failure is compared up to the step before it
 	n := len(o.Obs)
 	for _, f := range o.Fails {
-		if f.Kind != "correspondence" && f.Step < n {
+		if f.Kind != "correspondence" && !Benign(f.Key) && f.Step < n {
 			n = f.Step
 		}
 	}
